@@ -5,6 +5,7 @@ types ascribed (`let v: u5 = x.f();`), plus bit-pattern <-> field-type conversio
 and `.value()`.  It contains no expectation about results.
 """
 import json
+import re
 
 NATIVE = (8, 16, 32, 64, 128)
 
@@ -170,13 +171,40 @@ def default_literal(form, val, s):
     return "0x%x" % val
 
 
-def decl_source(d, doc=False, derive_debug_enums=True, vis="pub "):
+def decl_field_type(d, f):
+    """the field's type as written in the DECLARATION: arbitrary-int types may be spelled through a path"""
+    t = field_type(d, f)
+    if f["kind"] == "uarb" and f.get("tyspell"):
+        t = f["tyspell"] + t
+    return t
+
+
+def hostile_items(d):
+    """user items next to the declaration that generated code must not be confused by: a PRIVATE trait implemented for the
+    bitfield with by-value methods named like the fields (a by-value receiver inside generated code would pick these instead
+    of the getters), and constants named like upper-case fields (a generated parameter named after the field would turn into
+    a constant pattern)"""
+    names = [f["name"] for f in d["fields"]]
+    out = ["trait HostileByValue {"]
+    out += ["    fn %s(self) -> &'static str;" % n for n in names]
+    out += ["}", "impl HostileByValue for %s {" % d["name"]]
+    out += ["    fn %s(self) -> &'static str { \"hijacked\" }" % n for n in names]
+    out += ["}"]
+    for n in names:
+        if n.upper() == n and n.lower() != n and not n.startswith("r#") and n not in ("MASK", "CLEAR_MASK"):
+            out.append("#[allow(dead_code)] const %s: u32 = 3;" % n)
+    return out
+
+
+def decl_source(d, doc=False, derive_debug_enums=True, vis=None):
     """Only the user-written declaration (enums, nested bitfields, the bitfield)."""
+    if vis is None:
+        vis = d.get("vis", "pub ")
     out = []
     for e in d["enums"]:
         if doc:
             out.append("/// enum %s" % e["name"])
-        args = [uty(e["n"])]
+        args = [("::core::primitive::" if e.get("storage_path") and e["n"] in (8, 16, 32, 64) else "") + uty(e["n"])]
         if e["exh"] != "omitted":
             args.append("exhaustive = %s" % e["exh"])
         if e.get("args_rev"):
@@ -244,11 +272,13 @@ def decl_source(d, doc=False, derive_debug_enums=True, vis="pub "):
         out.append("    " + attr_text(f))
         if after:
             out.append(["    /// field %s (documented after the attribute)", "    #[doc = concat!(\"field %s\", \" (after, through concat!)\")]"][(k // 2) % 2] % strip_raw(f["name"]))
-        t = field_type(d, f)
+        t = decl_field_type(d, f)
         if f["array"]:
             t = "[%s; %d]" % (t, f["array"][0])
         out.append("    %s: %s," % (f["name"], t))
     out.append("}")
+    if d.get("hostile") and d["fields"]:
+        out.extend(hostile_items(d))
     return out
 
 
@@ -426,20 +456,36 @@ def glue_source(d, has_builder):
 
 
 def macro_wrapped(d, lines):
-    """the same declaration produced by a macro_rules! expansion, the struct's name and its fields' names passed in as
-    `ident` fragments (register-definition macros of HAL crates look like this)"""
-    head = "pub struct %s {" % d["name"]
+    """the same declaration produced by a macro_rules! expansion: the struct's visibility (`vis`), its name and its fields' names
+    (`ident`), a literal default and the array lengths (`literal`), a named default (`ident`) all arrive as fragments
+    (register-definition macros of HAL crates look like this)"""
+    vis = d.get("vis", "pub ")
+    head = "%sstruct %s {" % (vis, d["name"])
     k = max(j for j, l in enumerate(lines) if l == head)
     body = list(lines)
-    body[k] = "pub struct $s {"
-    params, args = ["$s:ident"], [d["name"]]
+    body[k] = "$v struct $s {"
+    params, args = ["$v:vis", "$s:ident"], [vis.strip(), d["name"]]
+    # the default of #[bitfield(.., default = X ..)]: the attribute line is the last `#[bitbybit::bitfield(` line before the struct
+    a = max(j for j in range(k) if body[j].startswith("#[bitbybit::bitfield("))
+    m = re.search(r"default( =|:) ([0-9A-Za-z_]+)", body[a])
+    if m:
+        frag = "$d:ident" if m.group(2) == "DEFVAL" else "$d:literal"
+        body[a] = body[a][:m.start(2)] + "$d" + body[a][m.end(2):]
+        params.append(frag)
+        args.append(m.group(2))
     for n, f in enumerate(d["fields"][:24]):              # every field's name arrives as an `ident` fragment
         fname = f["name"]
         for j in range(k + 1, len(body)):
             if body[j].startswith("    %s: " % fname):
-                body[j] = "    $f%d: " % n + body[j][len("    %s: " % fname):]
+                rest = body[j][len("    %s: " % fname):]
                 params.append("$f%d:ident" % n)
                 args.append(fname)
+                am = re.match(r"\[(.*); (\d+)\],$", rest)
+                if am and n < 4:                              # the length of the first few arrays as a `literal` fragment
+                    rest = "[%s; $n%d]," % (am.group(1), n)
+                    params.append("$n%d:literal" % n)
+                    args.append(am.group(2))
+                body[j] = "    $f%d: " % n + rest
                 break
     return (["macro_rules! mk_decl {", "    (%s) => {" % ", ".join(params)] + ["        " + l for l in body]
             + ["    };", "}", "mk_decl!(%s);" % ", ".join(args)])
